@@ -104,7 +104,11 @@ def main():
     fflags = open(spec["flags"], "w")
     hits = []
     nhit = 0
+    hist = {}
+    maxlen = 0
     for text in texts_of(spec):
+        if len(text) > maxlen:
+            maxlen = len(text)
         if write_inp:
             finp.write(" ".join([str(ord(c)) for c in text]))
             finp.write("\n")
@@ -118,6 +122,8 @@ def main():
             msg = "scan raised %s: %s" % (type(e).__name__, e)
         fout.write(line)
         fout.write("\n")
+        nt = len(toks) if toks is not None else -1
+        hist[nt] = hist.get(nt, 0) + 1
         fflags.write("1" if (toks is not None and (len(toks) >= 2 or EBAD in text or "\0" in text)) else "0")
         if msg is not None:
             nhit += 1
@@ -137,7 +143,7 @@ def main():
     with open(spec["hits"], "w") as f:
         for h in hits:
             f.write(json.dumps(h) + "\n")
-        f.write(json.dumps({"total_violations": nhit}) + "\n")
+        f.write(json.dumps({"total_violations": nhit, "token_count_hist": hist, "text_length_max": maxlen}) + "\n")
     print("done")
 
 
